@@ -1855,6 +1855,8 @@ class Tensor:
                         "mask": placeholder_mutant_view.creator.where,
                     },
                 )
+            # (as above: the flag of the updated tensor is that of the base)
+            placeholder_mutant_view._constant = inplace_target._constant
 
         # Connect public base tensor to placeholder graph via the mutated placeholder
         # tensor `out`.
